@@ -20,6 +20,16 @@ DEC_C = [0.05, 3.0, 20.0]
 
 
 def case_rescale(col, p):
+    from dadi import Integration
+    old_delj = Integration.use_delj_trick
+    Integration.use_delj_trick = bool(p.get('delj'))        # the public Chang-Cooper switch: the invariance holds with it on as well
+    try:
+        return _case_rescale(col, p)
+    finally:
+        Integration.use_delj_trick = old_delj
+
+
+def _case_rescale(col, p):
     G = p['G']
     xx = space.grid(p['grid'], G, p['seed'])
     n = 0
@@ -34,7 +44,10 @@ def case_rescale(col, p):
             col.violation('C03:program:raises', dict(p, programs=[prog]), '%s: %s' % (type(e).__name__, e))
             continue
         col.tick(transitions=len(full))
-        for c in BIN_C + DEC_C:
+        # with the Chang-Cooper switch on only the binary factors are compared: the weight 1/w - 1/(exp(w)-1) loses digits for small w = 2 M dx / V,
+        # so a last-bit change of w under a decimal factor is amplified by 1/w^2 (measured 1e-7 in the density, 2e-5 in the spectrum of a 5-population
+        # program) - too close to real defects to be told apart; binary factors scale every intermediate exactly
+        for c in (BIN_C if p.get('delj') else BIN_C + DEC_C):
             tr = []
             try:
                 PR.run(full, xx, theta0=p['theta0'], c=c, trace=tr)
@@ -60,7 +73,7 @@ def case_rescale(col, p):
                     break
                 col.observe('rescale_bin' if c in BIN_C else 'rescale_dec', err / tol)
     col.tick(states=n, traces=n)
-    col.distinct('nontrivial', ('rescale', G, p['grid'], json.dumps(p['programs'][0])[:200], len(p['programs'])))
+    col.distinct('nontrivial', ('rescale', G, p['grid'], json.dumps(p['programs'][0])[:200], len(p['programs']), bool(p.get('delj'))))
 
 
 def case_superpose(col, p):
@@ -153,6 +166,53 @@ def _superpose_body(col, p, integrate, dense, thetas, coefs, shape, N, d):
     col.distinct('nontrivial', ('superpose', d, G, json.dumps(op)[:200], tuple(nomut or ()), lo))
 
 
+def case_xchrom(col, p):
+    """the X-chromosome integrator: jointly linear in (density, theta0) and invariant to the reference size, for every breeding ratio and
+    male/female mutation ratio of the lattice (theta0 and alpha deliberately different)"""
+    from dadi import Integration as I
+    G = p['G']
+    xx = space.grid(p['grid'], G, p['seed'])
+    rng = np.random.RandomState(p['seed'] + 41)
+    dense = rng.uniform(0.1, 1.0, size=G)
+    old_tf = I.timescale_factor
+    I.timescale_factor = 0.02
+    n = 0
+    try:
+        for beta, alpha, gamma, h in itertools.product((0.5, 1.0, 3.0), (0.5, 1.0, 2.0), (0.0, -2.0, 1.5), (0.5, 0.2)):
+            def run(phi, theta, c=1.0):
+                return np.array(I.one_pop_X(phi, xx, 0.1 * c, nu=1.5 * c, gamma=gamma / c, h=h, beta=beta, alpha=alpha, theta0=theta / c))
+            info = dict(p, beta=beta, alpha=alpha, gamma=gamma, h=h)
+            base = {th: run(dense, th) for th in (0.0, 0.7, 2.5)}
+            for j in range(G):
+                e = np.zeros(G)
+                e[j] = 1.0
+                r1 = {th: run(e, th) for th in (0.0, 0.7, 2.5)}
+                col.tick(transitions=3)
+                for (a, b), t1, t2 in itertools.product(((1.0, 1.0), (2.0, 0.5), (3.0, -0.25)), (0.0, 0.7, 2.5), (0.0, 2.5)):
+                    if a * t1 + b * t2 < 0:
+                        continue
+                    lhs = run(a * e + b * dense, a * t1 + b * t2)
+                    rhs = a * r1[t1] + b * base[t2]
+                    col.tick(transitions=1)
+                    n += 1
+                    sc = max(1.0, float(np.abs(rhs).max()))
+                    if not float(np.abs(lhs - rhs).max()) <= 1e-11 * sc:
+                        col.violation('C03:superposition:one_pop_X', dict(info, unit=j, a=a, b=b, th1=t1, th2=t2), {'maxerr': float(np.abs(lhs - rhs).max())})
+                        break
+            for c in BIN_C + DEC_C:
+                got = run(dense, 0.7, c)
+                col.tick(transitions=1)
+                n += 1
+                tol = 1e-12 if c in BIN_C else 1e-9
+                err = float(np.abs(got - base[0.7]).max()) / max(float(np.abs(base[0.7]).max()), 1e-300)
+                if not err <= tol:
+                    col.violation('C03:rescale:one_pop_X', dict(info, c=c), {'relerr': err, 'tol': tol})
+    finally:
+        I.timescale_factor = old_tf
+    col.tick(states=n, traces=n)
+    col.distinct('nontrivial', ('xchrom', G, p['grid']))
+
+
 def case_superpose_manip(col, p):
     """the density operations between integrations (splits, admixture into a new population, pulses, removal, reordering) are linear maps:
     op(a*phi1 + b*phi2) = a*op(phi1) + b*op(phi2) for every unit density phi1, a dense phi2 and coefficient pairs of either sign (the
@@ -164,7 +224,8 @@ def case_superpose_manip(col, p):
     rng = np.random.RandomState(p['seed'] + 29)
     dense = rng.uniform(0.1, 1.0, size=shape)
     ops = [op for op in PR.enabled(d, 5, selection=False) if op[0] != 'int']
-    coefs = [(1.0, 1.0), (2.0, -0.5), (-1.0, 1.5), (1.0, -0.5), (-1.0, -1.0), (3.0, 0.25)]
+    # ... and of any magnitude (a density is proportional to theta0, which may be 1e-9 of another model's)
+    coefs = [(1.0, 1.0), (2.0, -0.5), (-1.0, 1.5), (1.0, -0.5), (-1.0, -1.0), (3.0, 0.25), (1e-9, 0.0), (1e-10, 1e-9), (0.0, 1e-7)]
     lo, hi = p['units']
     n = 0
     for op in ops:
@@ -187,7 +248,9 @@ def case_superpose_manip(col, p):
                 rhs = a * r1 + b * r2
                 col.tick(transitions=1)
                 n += 1
-                sc = max(1.0, float(np.abs(r1).max()), float(np.abs(r2).max()))
+                sc = max(float(np.abs(a * r1).max()), float(np.abs(b * r2).max()), 1e-300)
+                if abs(a) >= 0.25 or abs(b) >= 0.25:
+                    sc = max(1.0, sc)
                 err = float(np.abs(lhs - rhs).max())
                 if not err <= 1e-11 * sc:
                     col.violation('C03:superposition:%s%dD' % (op[0], d), dict(p, op=op, unit=j, a=a, b=b), {'maxerr': err, 'scale': sc})
@@ -246,7 +309,7 @@ def case_init_lattice(col, p):
     col.distinct('nontrivial', ('init_lattice', p['G'], p['grid'], h))
 
 
-CASES = {'rescale': case_rescale, 'superpose': case_superpose, 'init_lattice': case_init_lattice, 'superpose_manip': case_superpose_manip}
+CASES = {'xchrom': case_xchrom, 'rescale': case_rescale, 'superpose': case_superpose, 'init_lattice': case_init_lattice, 'superpose_manip': case_superpose_manip}
 
 
 def _dispatch(col, case):
@@ -286,6 +349,15 @@ def run(ctx):
     ctx.note('programs reaching 4-5 populations: %d' % len(progs45))
     for lo in range(0, len(progs45), 6):
         cases.append({'kind': 'rescale', 'G': 4, 'grid': 'D', 'seed': seed, 'theta0': 0.6, 'programs': progs45[lo:lo + 6]})
+    # the same invariance with the Chang-Cooper switch on: programs with a time-dependent integration (compiled kernels), and the 4-5 population ones
+    timedep = [pr for pr in progs if any(op[0] == 'int' and any(isinstance(sz, list) for sz in op[2]) for op in pr)]
+    step_t = 1 if not ctx.quick else 4
+    for lo in range(0, len(timedep), per * step_t):
+        cases.append({'kind': 'rescale', 'G': 8, 'grid': gk, 'seed': seed, 'theta0': 1.7, 'programs': timedep[lo:lo + per], 'delj': True})
+    for lo in range(0, len(progs45), 6 * (1 if not ctx.quick else 3)):
+        cases.append({'kind': 'rescale', 'G': 4, 'grid': 'D', 'seed': seed, 'theta0': 0.6, 'programs': progs45[lo:lo + 6], 'delj': True})
+    for gk_x, G_x in (('E', 8), ('D', 6)):
+        cases.append({'kind': 'xchrom', 'G': G_x, 'grid': gk_x, 'seed': seed})
     if ctx.quick:
         ctx.cap_hit('quick: programs up to length 3 (1-3 populations) / 2 (4-5 populations); thorough: 4 / 3')
     for h in INIT_HS:
